@@ -173,6 +173,32 @@ func c09Long(c *sim.Ctx) {
 		before := uint64(len(m.Chain))
 		switch {
 		case op <= 5:
+			if uint64(len(m.Chain))%W == W-1 && t.Draw("fail.window.end", 2) == 1 {
+				// the commit of the block that completes a window fails once; nothing may stay behind
+				n.FDB.Plan.FailCommitAt = n.FDB.Commits + 1
+				o := d.opts
+				o.Empty = true
+				saved := d.opts
+				d.opts = o
+				fb := d.next(m.Head())
+				d.opts = saved
+				err := n.StoreBlock(fb)
+				n.FDB.Plan.FailCommitAt = 0
+				if err == nil {
+					c.Broken("injected commit error did not fire")
+				}
+				c.Logf("store of block %d (last of its window) failed with the injected commit error", fb.B.Number)
+				c.Fault("commit_error_at_window_end")
+				(&checker{n: n, m: m}).CheckHead()
+				if t.Draw("restart.after.failure", 2) == 1 {
+					n = n.Restart(false)
+				}
+				if err := n.StoreBlock(fb); err != nil {
+					c.Fail("valid_block_rejected", "store_after_failed_commit", "[%s] block %d could not be stored after its first commit had failed: %v", backendName(n), fb.B.Number, err)
+				}
+				m.Chain = append(m.Chain, fb)
+				break
+			}
 			store(t.Draw("empty", 4) == 0)
 			c.Logf("store block %d", len(m.Chain)-1)
 		case op <= 7:
